@@ -1036,6 +1036,17 @@ pub fn gc_table(c: &SCase) -> Vec<f64> {
     }
 }
 
+/// the haversine great-circle distance in metres, evaluated in f64 on the f32 coordinates: the
+/// harness's own reference (same formula and radius as the code, none of its arithmetic)
+pub fn gc_f64(a: (f32, f32), b: (f32, f32)) -> f64 {
+    let (ax, ay, bx, by) = (a.0 as f64, a.1 as f64, b.0 as f64, b.1 as f64);
+    let (lat1, lat2) = (ay.to_radians(), by.to_radians());
+    let d_lat = lat2 - lat1;
+    let d_lon = (bx - ax).to_radians();
+    let h = (d_lat / 2.0).sin().powi(2) + (d_lon / 2.0).sin().powi(2) * lat1.cos() * lat2.cos();
+    6_371_000.0 * 2.0 * h.sqrt().asin()
+}
+
 pub fn gc_between(a: (f32, f32), b: (f32, f32)) -> f64 {
     haversine::coord_distance_meters(&geo_coord(a), &geo_coord(b)).map(|d| d.as_f64()).unwrap_or(f64::NAN)
 }
@@ -1263,8 +1274,11 @@ pub fn si_w(u: &WeightUnit) -> f64 {
 
 pub fn gen_graph(rng: &mut Rng, n_v: usize, style: LenStyle) -> (Vec<(f32, f32)>, Vec<(usize, usize, f64)>) {
     // small lat/lon patch around Denver
+    // (one graph in three is a few hundred metres across: neighbouring f32 coordinates, where a
+    // great-circle formula evaluated in single precision loses most of its digits)
+    let span = if rng.chance(1, 3) { 0.004 } else { 0.05 };
     let coords: Vec<(f32, f32)> = (0..n_v)
-        .map(|_| ((-105.0 + 0.05 * rng.unit()) as f32, (39.7 + 0.05 * rng.unit()) as f32))
+        .map(|_| ((-105.0 + span * rng.unit()) as f32, (39.7 + span * rng.unit()) as f32))
         .collect();
     let shape = rng.below(5);
     let mut pairs: Vec<(usize, usize)> = vec![];
@@ -1336,9 +1350,17 @@ pub fn gen_graph(rng: &mut Rng, n_v: usize, style: LenStyle) -> (Vec<(f32, f32)>
                 LenStyle::TieHeavy => (1 + rng.below(4)) as f64,
                 LenStyle::Generic => 10.0 + 5000.0 * rng.unit(),
                 LenStyle::Metric => {
-                    let gc = gc_between(coords[a], coords[b]);
-                    // strictly above the great-circle distance (avoid ulp-level ties with it)
-                    gc * (1.01 + 0.8 * rng.unit()) + 1.0
+                    if rng.chance(1, 2) {
+                        // tight: the great-circle distance itself, computed HERE in double precision
+                        // (not by the code under test), with a margin far above f64 rounding and far
+                        // below anything a single-precision formula could hide behind — an estimate
+                        // that overshoots the distance at all becomes an inadmissible one
+                        gc_f64(coords[a], coords[b]) * (1.0 + 1.0e-9) + 1.0e-6
+                    } else {
+                        let gc = gc_between(coords[a], coords[b]);
+                        // strictly above the great-circle distance (avoid ulp-level ties with it)
+                        gc * (1.01 + 0.8 * rng.unit()) + 1.0
+                    }
                 }
             };
             (a, b, len)
